@@ -1,6 +1,7 @@
 package main
 
 import (
+	"bytes"
 	"crypto"
 	"crypto/x509"
 	"encoding/pem"
@@ -159,6 +160,8 @@ func joinSign1(parts [4][]byte) []byte {
 
 var garbageToken = []byte{0xd2, 0x84, 0x01}
 
+var mistypedPayload = append(append([]byte{0xa2, 0x19, 0x01, 0x09, 0x78, 0x18}, []byte(psatoken.Profile2Name)...), 0x19, 0x09, 0x5a, 0x61, 0x78)
+
 func resolveRef(ref string, pool [][]string, toks [][]byte) []byte {
 	if ref == "g" {
 		return garbageToken
@@ -176,6 +179,12 @@ func resolveRef(ref string, pool [][]string, toks [][]byte) []byte {
 		parts[2] = cborBstr([]byte{0x01})
 	case 'n':
 		parts[2] = []byte{0xf6}
+	case 'f':
+		// payload given in the case line (a token in a format the library accepts but never emits)
+		parts[2] = cborBstr(parseHexTok(args[1]))
+	case 'y':
+		// a profile-2 map whose client id is a text string: the selector reads it, the full decode fails
+		parts[2] = cborBstr(mistypedPayload)
 	case 'a':
 		parts[0] = []byte{0x40}
 	case 'p':
@@ -260,6 +269,9 @@ func execEv(in string) string {
 					return "err"
 				}
 				toks = append(toks, tok)
+				if want, eerr := psatoken.EncodeClaimsToCBOR(ev.Claims); eerr != nil || !bytes.Equal(bstrContent(splitSign1(tok)[2]), want) {
+					return "ok-but-payload-is-not-the-encoding-of-the-attached-claims"
+				}
 				return "ok"
 			case "dec":
 				b := resolveRef(parts[1], pool, toks)
@@ -283,7 +295,7 @@ func execEv(in string) string {
 
 func genC19(tier string, seed uint64, emit func(string)) {
 	r := &rng{s: seed}
-	n := 1000
+	n := 800
 	if tier == "thorough" {
 		n = 10000
 	}
@@ -330,7 +342,7 @@ func genC19(tier string, seed uint64, emit func(string)) {
 			case 3, 4:
 				ops = append(ops, "vsign:"+signers[r.intn(len(signers))])
 			case 5, 6:
-				kinds := []string{"t", "t", "x", "n", "a", "g"}
+				kinds := []string{"t", "t", "x", "n", "a", "g", "y", "y"}
 				k := kinds[r.intn(len(kinds))]
 				switch {
 				case k == "g":
